@@ -95,4 +95,98 @@ theorem tie_groundDistanceToUnits (fl : α → Int) (ix : Grid.Index α) (distan
   · simp [h, lift]
 end
 
+/-! ### `SpatialIndex.__cellsCrossSegment` (two nested `for … in range(…)` loops) ↔ `Grid.cellsCross`
+
+No hypothesis on the scalar is needed: the model converts `i + 1` as the code does (`float(i + 1)` of the integer sum),
+the eight comparisons are the same strict `<` on the same operands in the same order, the four straddle tests are
+`tie_isSegmentIntersects`, and the int `min` / `max`, `range`, `in` of the prelude are proved equal to the model's. -/
+section
+/-- the prelude's `range(lo, hi)` with step 1 is the model's `rangeI lo hi` -/
+theorem rangeFrom_one_eq_map (a : Int) (n : Nat) :
+    Py.rangeFrom a 1 n = (List.range n).map (fun (k : Nat) => a + (k : Int)) := by
+  induction n with
+  | zero => rfl
+  | succ n ih => rw [Py.rangeFrom_snoc, ih, List.range_succ, List.map_append]; simp
+theorem range_eq_rangeI (lo hi : Int) : Py.range lo hi = Grid.rangeI lo hi := rangeFrom_one_eq_map _ _
+/-- CPython's `min(a, b)` / `max(a, b)` on ints (`b if b < a else a`, `b if a < b else a`) are `min` / `max` of `Int` -/
+theorem imin_eq_min (a b : Int) : Py.imin a b = min a b := by
+  unfold Py.imin; rw [Int.min_def]; split <;> split <;> omega
+theorem imax_eq_max (a b : Int) : Py.imax a b = max a b := by
+  unfold Py.imax; rw [Int.max_def]; split <;> split <;> omega
+/-- `x in L` on pairs of ints: the prelude tests with the `BEq` of decidable equality, the model's `addNew` with the
+componentwise `BEq` of pairs; both are membership -/
+theorem contains_eq (l : List (Int × Int)) (x : Int × Int) : Py.contains l x = l.contains x := by
+  rw [Bool.eq_iff_iff]
+  have h1 : Py.contains l x = true ↔ x ∈ l := by
+    unfold Py.contains; exact @List.elem_iff (Int × Int) instBEqOfDecidableEq inferInstance x l
+  have h2 : l.contains x = true ↔ x ∈ l := List.contains_iff_mem
+  rw [h1, h2]
+/-- one link of a translated `a and b` chain -/
+theorem ite_ok_and (c a : Bool) :
+    (if c = true then (Except.ok a : Py.M Bool) else Except.ok false) = Except.ok (c && a) := by
+  cases c <;> rfl
+/-- the shape of the loop body after the eight comparisons: `if A: add elif B1: add elif … elif B4: add` (each `add` is
+`if cell not in CELLS: CELLS.append(cell)`, every branch ends the iteration normally) is one step of the model's fold -/
+theorem hit_shape {σ ρ : Type} (A B1 B2 B3 B4 C : Bool) (s s' : σ) :
+    (if A = true then (if (!C) = true then (Except.ok (Ctl.cont s') : Py.M (Ctl σ ρ)) else Except.ok (Ctl.cont s))
+     else Py.bind (Except.ok B1 : Py.M Bool) fun b1 =>
+      if b1 = true then (if (!C) = true then Except.ok (Ctl.cont s') else Except.ok (Ctl.cont s))
+     else Py.bind (Except.ok B2 : Py.M Bool) fun b2 =>
+      if b2 = true then (if (!C) = true then Except.ok (Ctl.cont s') else Except.ok (Ctl.cont s))
+     else Py.bind (Except.ok B3 : Py.M Bool) fun b3 =>
+      if b3 = true then (if (!C) = true then Except.ok (Ctl.cont s') else Except.ok (Ctl.cont s))
+     else Py.bind (Except.ok B4 : Py.M Bool) fun b4 =>
+      if b4 = true then (if (!C) = true then Except.ok (Ctl.cont s') else Except.ok (Ctl.cont s))
+     else Except.ok (Ctl.cont s))
+    = Except.ok (Ctl.cont (if (if A = true then true else if B1 = true then true else if B2 = true then true
+        else if B3 = true then true else if B4 = true then true else false) = true
+        then (if C = true then s else s') else s)) := by
+  cases A <;> cases B1 <;> cases B2 <;> cases B3 <;> cases B4 <;> cases C <;> rfl
+
+variable {α : Type} [Add α] [Sub α] [Mul α] [Neg α] [LT α] [LE α] [DecidableLT α] [DecidableLE α] [IntCast α]
+  [OfNat α 0]
+
+/-- `tie_isSegmentIntersects` on two four-element list literals -/
+theorem isSegmentIntersects_lit (a b c d e f g h : α) :
+    Gen.Geometry.isSegmentIntersects [a, b, c, d] [e, f, g, h]
+      = .ok (Grid.isSegmentIntersects ⟨a, b, c, d⟩ ⟨e, f, g, h⟩) := rfl
+
+/-- `__cellsCrossSegment(coord1, coord2)` of the CURRENT source — bounds `min(floor, floor, size - 1)` …
+`min(max(floor, floor), size - 1)`, the two nested loops over `range(xmin, xmax + 1)`, `range(ymin, ymax + 1)`, the
+eight strict comparisons, the four straddle tests in the order bottom, left, top, right, `if (i, j) not in CELLS:
+CELLS.append((i, j))` — returns the model's `cellsCross` on ALL arguments (any scalar with the bare operations, any
+`floor`, any `csize`, `lsize`; whatever follows the second coordinate in the lists is never read). No hypothesis. -/
+theorem tie_cellsCrossSegment (floor : α → Int) (cs ls : Int) (x1 y1 x2 y2 : α) (r1 r2 : List α) :
+    Gen.SpatialIndex.SpatialIndex_cellsCrossSegment floor cs ls (x1 :: y1 :: r1) (x2 :: y2 :: r2)
+      = .ok (Grid.cellsCross floor cs ls (x1, y1) (x2, y2)) := by
+  unfold Gen.SpatialIndex.SpatialIndex_cellsCrossSegment
+  simp only [Py.getItem_zero, Py.getItem_succ, Py.bind_ok, imin_eq_min, imax_eq_max, range_eq_rangeI]
+  rw [Py.forList_eq_foldl _ (fun cells i =>
+      (Grid.rangeI (min (min (floor y1) (floor y2)) (ls - 1)) (min (max (floor y1) (floor y2)) (ls - 1) + 1)).foldl
+        (fun cells j => if Grid.cellHit (x1, y1) (x2, y2) i j then Grid.addNew cells (i, j) else cells) cells) _ _ ?h]
+  · rfl
+  · intro i _ t
+    rw [Py.forList_eq_foldl _
+      (fun cells j => if Grid.cellHit (x1, y1) (x2, y2) i j then Grid.addNew cells (i, j) else cells) _ _ ?h2]
+    · rfl
+    · intro j _ cells
+      simp only [ite_ok_and, Py.bind_ok, List.map_cons, List.map_nil, isSegmentIntersects_lit, contains_eq]
+      exact hit_shape _ _ _ _ _ _ _ _
+
+/-- a first coordinate list with fewer than two numbers raises `IndexError` -/
+theorem tie_cellsCrossSegment_short1 (floor : α → Int) (cs ls : Int) (l1 l2 : List α) (h : l1.length < 2) :
+    Gen.SpatialIndex.SpatialIndex_cellsCrossSegment floor cs ls l1 l2 = .error .index := by
+  match l1, h with
+  | [], _ => rfl
+  | [_], _ => rfl
+
+/-- so does a second coordinate list with fewer than two numbers (the first one being long enough) -/
+theorem tie_cellsCrossSegment_short2 (floor : α → Int) (cs ls : Int) (x1 y1 : α) (r1 l2 : List α)
+    (h : l2.length < 2) :
+    Gen.SpatialIndex.SpatialIndex_cellsCrossSegment floor cs ls (x1 :: y1 :: r1) l2 = .error .index := by
+  match l2, h with
+  | [], _ => rfl
+  | [_], _ => rfl
+end
+
 end TV.Tie.C08
